@@ -318,5 +318,5 @@ def entanglement_fidelity(operation: cirq.SupportsKraus) -> float:
     f = 0.0
     for k in protocols.kraus(operation):
         f += np.abs(np.trace(k)) ** 2
-    n_qubits = protocols.num_qubits(operation)
-    return float(f / 4**n_qubits)
+    dimension = np.prod(protocols.qid_shape(operation), dtype=np.int64)
+    return float(f / dimension**2)
